@@ -15,6 +15,9 @@ def run(tier, rep, work):
     evs = []
     evs += storefam.run_store(rep, work, d, exe, "C10", tier, "images at hook points", 0, n, memcap=1, compactn=2, images=0.35, steps=18, density=0.2, seed=20)
     evs += storefam.run_store(rep, work, d, exe, "C10", tier, "images with one damaged file", 1, n, memcap=2, compactn=3, images=0.3, damage=True, steps=20, density=0.2, seed=21)
+    # crash points along schedules that TLC generated from Store.tla (simulation mode), replayed through the hook gates
+    sched = storefam.generated_schedules(rep, d, 40 if quick else 400, memcap=1, compactn=2, maxlen=30)
+    evs += storefam.run_store(rep, work, d, exe, "C10", tier, "images along TLC-generated schedules", 2, 0, memcap=1, compactn=2, images=0.3, seed=22, sched=sched[:150 if quick else 1500])
     imgs = [e for e in evs if e["op"] == "image.begin"]
     points = sorted({e["at"] for e in imgs})
     rep.cov["evaluations"] = len(imgs)
